@@ -119,9 +119,6 @@ func c05Prop(c *sim.Case) {
 	c.Logf("world: %v prefix=%q", ho, ho.o.CookiePrefix)
 	logOps(c, ops)
 	h := ho.build(c, &c05Mon{everIssued: map[string]int{}})
-	// a third browser
-	h.bs = append(h.bs, h.w.NewBrowser("c"))
-	h.lastLoc, h.pending, h.lastTgt = append(h.lastLoc, ""), append(h.pending, ""), append(h.lastTgt, "")
 	defer h.w.Close()
 	for i := range ops {
 		h.exec(&ops[i])
